@@ -443,7 +443,7 @@ func cmdCheck(prop, tier string) int {
 		"wall_s":      time.Since(start).Seconds(),
 		"violations":  nviol,
 	}
-	if repoDir() == "/repo" && os.Getenv("VERIF_KEEP_EVIDENCE") == "" {
+	if os.Getenv("VERIF_KEEP_EVIDENCE") == "" {
 		os.MkdirAll(filepath.Join(verifDir, "evidence"), 0o755)
 		js, _ := json.MarshalIndent(ev, "", " ")
 		if err := os.WriteFile(filepath.Join(verifDir, "evidence", prop+".json"), js, 0o644); err != nil {
